@@ -83,7 +83,7 @@ CHECKS.update({
              'of each of the eight metrics (0 for mse/rmse/mae/brier/logloss, 1 for accuracy/f1/auc, rmse monotone in mse), and that every '
              'entry of the should_maximize table regenerated from the current source points to that optimum (a flipped flag breaks '
              'direction_table). Metric values are tied to the code by a correspondence comparing the real Metric.compute (float64/float32) with '
-             'exact rational evaluation of the model and with an independent numpy definition, including an exhaustive binary family.',
+             'exact rational evaluation of the model and with an independent numpy definition, including an exhaustive binary family. The _compute chains of MSE / RMSE / MAE / Brier are regenerated from the source (Gen.MetricOps) and proved to be the model metrics (gen_mean_metrics_eq_model).',
         note=TB + 'Theorems are about the model in exact arithmetic. Floating-point rounding, sklearn roc_auc_score/f1_score/log_loss (incl. '
              'clipping) and torch reductions are modelled by their textbook definitions, compared per case under a computed allowance. Brier '
              'follows the code\'s samples x classes convention.',
